@@ -819,13 +819,17 @@ func (fw *fworld) dial(k int) {
 	type res struct {
 		cl   *client
 		sess *stcp.Session
+		reg  chan *stcp.Session
+		hung bool
 	}
 	out := make([]res, k)
 	var wg sync.WaitGroup
+	start := make(chan struct{})
 	for i := 0; i < k; i++ {
 		wg.Add(1)
 		go func(i int) {
 			defer wg.Done()
+			<-start // the whole burst connects back to back: surplus connections queue up in the backlog
 			c, err := net.Dial("tcp", fw.addr)
 			if err != nil {
 				tr.Fatal("dial %s: %v", fw.addr, err)
@@ -833,27 +837,70 @@ func (fw *fworld) dial(k int) {
 			cl := &client{c: c, done: make(chan struct{})}
 			r, _ := fw.h.chans(c.LocalAddr().String())
 			go cl.run()
-			t := time.NewTimer(budget)
+			t := time.NewTimer(freeBudget)
 			defer t.Stop()
 			select {
 			case s := <-r:
-				out[i] = res{cl, s}
+				out[i] = res{cl: cl, sess: s}
 			case <-cl.done:
-				out[i] = res{cl, nil}
+				out[i] = res{cl: cl}
 			case <-t.C:
-				tr.Fatal("dial: neither admitted nor refused within %v", budget)
+				out[i] = res{cl: cl, reg: r, hung: true}
 			}
 		}(i)
 	}
+	close(start)
 	wg.Wait()
+	// A connection that was neither handed to a session nor closed within the budget: if the
+	// process is still busy this says nothing (exit 2).  If every goroutine is parked (the accept
+	// loop back in Accept, nobody left who could close the socket) it is a fact about the server:
+	// it is recorded as the outcome of that accept and TLC judges it.
+	nhung := 0
+	for i := range out {
+		if out[i].hung {
+			nhung++
+		}
+	}
+	if nhung > 0 {
+		if err := fw.x.Settle(); err != nil {
+			tr.Fatal("dial: neither admitted nor refused within %v and the process is not quiescent: %v", freeBudget, err)
+		}
+		for i := range out {
+			if !out[i].hung {
+				continue
+			}
+			select { // resolved late, but resolved
+			case s := <-out[i].reg:
+				out[i].sess, out[i].hung = s, false
+			case <-out[i].cl.done:
+				out[i].hung = false
+			default:
+				fmt.Printf("free world: connection %s neither admitted nor closed after %v, process quiescent\n",
+					out[i].cl.c.LocalAddr(), freeBudget)
+				fw.failed = true
+			}
+		}
+	}
 	// the order in which the accept loop took the connections is not observable; no session ends
 	// during a burst, so the admitted ones came first
-	sort.SliceStable(out, func(i, j int) bool { return out[i].sess != nil && out[j].sess == nil })
+	rank := func(r res) int {
+		switch {
+		case r.sess != nil:
+			return 0
+		case r.hung:
+			return 2
+		}
+		return 1
+	}
+	sort.SliceStable(out, func(i, j int) bool { return rank(out[i]) < rank(out[j]) })
 	for _, r := range out {
 		x := &fsess{id: len(fw.ss) + 1, cl: r.cl, sess: r.sess, st: "run"}
 		rr := "admitted"
-		if r.sess == nil {
+		switch rank(r) {
+		case 1:
 			x.st, rr = "refused", "refused"
+		case 2:
+			x.st, rr = "hung", "hung" // no step of the specification: an accept admits or closes
 		}
 		fw.ss = append(fw.ss, x)
 		fw.fire(tr.E{"op": "start", "s": x.id, "r": rr})
@@ -992,6 +1039,31 @@ func runFree(w *tr.W, rng *rand.Rand, idx int) bool {
 			fw.end(x, "timeout")
 		}
 		fw.sync()
+		fw.finish(rng)
+		return !fw.failed
+	}
+	if idx%5 == 2 {
+		// surplus bursts: fill the server, then many connections at once; every surplus one must be
+		// closed, and when one slot is free exactly one of a burst gets it
+		maxc = 1 + rng.Intn(2)
+		fw := newFree(w, maxc, 20*time.Second, "free-burst")
+		fw.dial(maxc)
+		fw.sync()
+		if !fw.failed {
+			fw.dial(8 + rng.Intn(5))
+			fw.sync()
+		}
+		if al := fw.alive(); !fw.failed && len(al) > 0 {
+			if rng.Intn(2) == 0 {
+				fw.send(al[0], rng)
+			}
+			fw.end(al[rng.Intn(len(al))], []string{"close", "peer", "panic"}[rng.Intn(3)])
+			fw.sync()
+			if !fw.failed {
+				fw.dial(3 + rng.Intn(4))
+				fw.sync()
+			}
+		}
 		fw.finish(rng)
 		return !fw.failed
 	}
